@@ -8,7 +8,7 @@ from vlib.harness import ok, skip, viol
 PID = "C05"
 RULE = ("Program = [EQU defs] ORG o / [label defs] / <directive> / ZZN NOP / [defs after]. Directives: FCB and FDB lists of "
         "1-64 elements, each a literal in any spelling, a negative number, an EQU symbol (defined before or after), "
-        "a label or a two-term constant expression; out-of-width elements planted in some cases; FCC with every printable non-blank delimiter and strings "
+        "a label, a label plus or minus an EQU constant of either sign, or a two-term constant expression; out-of-width elements planted in some cases; FCC with every printable non-blank delimiter and strings "
         "of printable ASCII of length 0-255 (letters only / single spaces / runs of spaces / leading or trailing space "
         "/ ';' / punctuation / the other quote), with and without a trailing '; comment'; RMB n on a boundary grid and "
         "uniform in 0..65535; EQU ORG SETDP NAM END (with and without operand) and INCLUDE of an empty file as no-byte "
@@ -39,6 +39,7 @@ _elem = st.one_of(
     st.tuples(st.just("equ_before"), st.one_of(st.sampled_from(A.BOUNDARY), st.integers(-200, 70000)), st.integers(0, 7)),
     st.tuples(st.just("equ_after"), st.one_of(st.sampled_from(A.BOUNDARY), st.integers(-200, 70000)), st.integers(0, 7)),
     st.tuples(st.just("label"), st.integers(0, 2), st.integers(0, 7)),
+    st.tuples(st.just("labelsym"), st.integers(-6, 6), st.integers(0, 7)),
     st.tuples(st.just("expr"), st.one_of(st.integers(-300, 70000), st.sampled_from(A.BOUNDARY)), st.integers(0, 200)))
 
 
@@ -49,6 +50,9 @@ def _mk_list(directive, elems, fit, comment):
     for kind, v, spi in elems:
         if kind == "label":
             out.append(dict(kind="label", idx=v))
+            continue
+        if kind == "labelsym":      # label +- symbol, the symbol an EQU constant of either sign defined before or after
+            out.append(dict(kind="labelsym", idx=spi % 2, c=v, op="+-"[(spi >> 1) % 2], after=bool((spi >> 2) % 2)))
             continue
         if kind == "expr":
             # a two-term constant expression with value v: a+b, a-b or a*b over decimal / hex terms
@@ -138,6 +142,15 @@ def enumerated(tier, seed):
     for c in NOBYTE:
         yield c
     yield from pair_cases()
+    # a label with an EQU constant of either sign added or subtracted, alone and inside a list
+    for c in (-300, -3, -1, 0, 2, 255):
+        for op in "+-":
+            for after in (False, True):
+                for idx in (0, 1):
+                    e = dict(kind="labelsym", idx=idx, c=c, op=op, after=after)
+                    yield dict(dir="FDB", elems=[e], comment=None)
+                    yield dict(dir="FDB", elems=[dict(kind="lit", v=1, sp="dec"), e, dict(kind="label", idx=0)], comment=None)
+                    yield dict(dir="FCB", elems=[e], comment=None)
     # lists of 64 elements in their longest spellings (operand fields of 250-640 characters)
     for directive, width in (("FCB", 1), ("FDB", 2)):
         for kind, v, sp in (("lit", 255, "bin8"), ("lit", 200, "hex4"), ("lit", -100, "dec"), ("lit", 255, "dec"), ("equ_before", 77, "dec"),
@@ -218,6 +231,16 @@ def build(case):
                 parts.append(name)
                 v = None
                 out += b"\x00" * width           # patched below once the size is known
+                continue
+            if e["kind"] == "labelsym":
+                name = "ZQ%d" % n_equ
+                n_equ += 1
+                (post if e["after"] else pre).append(A.line(name, "EQU", str(e["c"])))
+                parts.append(["ZZA", "ZZB"][e["idx"]] + e["op"] + name)
+                v = [ORG, ORG + 1][e["idx"]] + (e["c"] if e["op"] == "+" else -e["c"])
+                if not lo <= v <= hi:
+                    must_reject = True
+                out += (v % (1 << (8 * width))).to_bytes(width, "big")
                 continue
             v = e["v"]
             if e["kind"] == "expr":
